@@ -919,10 +919,15 @@ def ml_gmm_m_step(
 
     # Update means if requested
     # (Equation 9.24 of Bishop, "Pattern recognition and machine learning", 2006)
+    # A Gaussian whose responsibilities are below the threshold has no data to
+    # be estimated from: its mean and variance are left as they are
+    starved = (statistics.n < mean_var_update_threshold)[:, None]
     if update_means:
         logger.debug("Update means.")
         # Using n with the applied threshold
-        machine.means = statistics.sum_px / thresholded_n[:, None]
+        machine.means = np.where(
+            starved, machine.means, statistics.sum_px / thresholded_n[:, None]
+        )
 
     # Update variances if requested
     # (Equation 9.25 of Bishop, "Pattern recognition and machine learning", 2006)
@@ -932,9 +937,13 @@ def ml_gmm_m_step(
     # (which is 1/n * sum (Pxx) - mean^2 only if the means were just updated)
     if update_variances:
         logger.debug("Update variances.")
-        machine.variances = (
-            statistics.sum_pxx - 2 * machine.means * statistics.sum_px
-        ) / thresholded_n[:, None] + np.power(machine.means, 2)
+        machine.variances = np.where(
+            starved,
+            machine.variances,
+            (statistics.sum_pxx - 2 * machine.means * statistics.sum_px)
+            / thresholded_n[:, None]
+            + np.power(machine.means, 2),
+        )
 
 
 def map_gmm_m_step(
